@@ -28,6 +28,19 @@ package types
 //@   ensures already_started: old(t.done) != nil ==> result != nil && t.done == old(t.done)
 //@   ensures started: old(t.done) == nil ==> result == nil && t.done != nil
 
+// the goroutine of the timer, taken as a sequential function: it waits for exactly two things, the expiry of
+// the delay and the stop; nothing else (a request context, say) ends the wait
+//@ func (*TransactionCancelTimer).Start$1
+//@   props C06 C05
+//@   chanevents
+//@   requires t != nil
+//@   nosafety the claim is about what the wait listens to; no-panic is property C20
+//@   let n0 = ntrace()
+//@   let done0 = t.done
+//@   ensures waits_for_expiry_or_stop_only [C06 C05]: called(NewTimer) && forall(i, n0, ntrace(), isev(emitted(i), Recv) ==>
+//@            evarg(emitted(i), Recv, 0) == done0 || evarg(emitted(i), Recv, 0) == callres(NewTimer, 0).C)
+//@   ensures the_delay_is_the_configured_one [C06]: callarg(NewTimer, 0, 0) == t.delay
+
 //@ iface RollbackInterface.TransactionRollback
 //@   params ctx transaction dryRun
 //@   emits Rollback(transaction)
